@@ -968,15 +968,16 @@ void TasmanianSparseGrid::setSurplusRefinement(double tolerance, TypeRefinement 
         throw std::runtime_error("ERROR: setSurplusRefinement(double, TypeRefinement) called for a Fourier grid.");
     if (tolerance < 0.0) throw std::invalid_argument("ERROR: calling setSurplusRefinement() with invalid tolerance (must be non-negative)");
 
-    if (level_limits != 0) // can only happen if calling directly with int*, the vector version always passes null for level_limits
-        llimits = Utils::copyArray(level_limits, dims); // if level_limits is null, we want to keep llimits unchanged
-
-    if (isLocalPolynomial()){
-        get<GridLocalPolynomial>()->setSurplusRefinement(tolerance, criteria, output, llimits, scale_correction);
-    }else if (isWavelet()){
-        get<GridWavelet>()->setSurplusRefinement(tolerance, criteria, output, llimits);
+    if (isLocalPolynomial() || isWavelet()){
+        if (level_limits != 0) llimits = Utils::copyArray(level_limits, dims); // if level_limits is null, we want to keep llimits unchanged
+        if (isLocalPolynomial()){
+            get<GridLocalPolynomial>()->setSurplusRefinement(tolerance, criteria, output, llimits, scale_correction);
+        }else{
+            get<GridWavelet>()->setSurplusRefinement(tolerance, criteria, output, llimits);
+        }
     }else{
-        setSurplusRefinement(tolerance, output, std::vector<int>()); // new level limits are already set above
+        // the overload checks the grid family and stores the new limits only if the call is accepted
+        setSurplusRefinement(tolerance, output, Utils::copyArray(level_limits, dims));
     }
 }
 void TasmanianSparseGrid::setSurplusRefinement(double tolerance, TypeRefinement criteria, int output, const std::vector<int> &level_limits, const std::vector<double> &scale_correction){
@@ -987,8 +988,8 @@ void TasmanianSparseGrid::setSurplusRefinement(double tolerance, TypeRefinement 
     if ((!level_limits.empty()) && (level_limits.size() != (size_t) dims)) throw std::invalid_argument("ERROR: setSurplusRefinement() requires level_limits with either 0 or dimenions entries");
     if ((!scale_correction.empty()) && (scale_correction.size() != nscale)) throw std::invalid_argument("ERROR: setSurplusRefinement() incorrect size for scale_correction");
 
-    if (!level_limits.empty()) llimits = level_limits;
-    setSurplusRefinement(tolerance, criteria, output, nullptr, (scale_correction.empty()) ? nullptr : scale_correction.data());
+    // the limits are stored by the raw-array overload after it has validated the call
+    setSurplusRefinement(tolerance, criteria, output, (level_limits.empty()) ? nullptr : level_limits.data(), (scale_correction.empty()) ? nullptr : scale_correction.data());
 }
 
 void TasmanianSparseGrid::clearRefinement(){
